@@ -1452,7 +1452,9 @@ class Interp:
         # native
         if contains_sym((args, kwargs)) and not getattr(f, "_sym_ok", False):
             owner = getattr(f, "__self__", None)
-            if not (isinstance(owner, (Sym, SymArr, GhostGen, SymRange)) or getattr(owner, "_pyvc_value", False)):
+            container_method = isinstance(owner, (list, dict, set)) and getattr(f, "__name__", "") in (
+                "append", "extend", "insert", "pop", "clear", "update", "add", "setdefault", "get", "copy", "items", "keys", "values", "discard")
+            if not (isinstance(owner, (Sym, SymArr, GhostGen, SymRange)) or getattr(owner, "_pyvc_value", False) or container_method):
                 name = getattr(f, "__qualname__", None) or getattr(f, "__name__", repr(f))
                 mod = getattr(f, "__module__", "")
                 if not (mod or "").startswith("pyvc"):
